@@ -1,6 +1,7 @@
 (** * Gallina transliteration of the LOOP of the Nesterov-accelerated GJK
       (/repo/distance3d/gjk/_gjk_nesterov_accelerated.py: the while loop of
-      [gjk_nesterov_accelerated] 120-206 (+ the cap exit added by commit b028d6b),
+      [gjk_nesterov_accelerated] 120-214 (incl. the cap exit of commit b028d6b and the zero-direction
+      fallback of commit 41496a5),
       [origin_to_point] 209-212, [origin_to_segment] 215-219, [origin_to_triangle] 222-234,
       [project_line_origin] 237-262, [t_b] 265-271, [project_triangle_origin] 274-306, the
       [region_*] helpers 309-341 and [project_tetra_to_origin] 343-507), generic in the
@@ -188,7 +189,9 @@ Section NesterovLoop.
       else
         let momentum := fnat (it s + 1) (it s + 3) in
         let y := vadd (vscale momentum (ray s)) (vscale (one - momentum) (support_point s)) in
-        vadd (vscale momentum (ray_dir s)) (vscale (one - momentum) y)
+        let rd := vadd (vscale momentum (ray_dir s)) (vscale (one - momentum) y) in
+        (* commit 41496a5: `if not ray_dir.any(): ray_dir = ray` *)
+        if all_zero rd then ray s else rd
     else ray s.
 
   Inductive pass_result :=
